@@ -1,9 +1,11 @@
 (* C07: the peekable receive queue of a connection and its polling consumers.
-   consumers: the unhandled-datagram consumer (mark - sleep - pop if still marked), the registered consumers and the
+   consumers: the unhandled-datagram consumer (mark - sleep up to unhandled_patience intervals - pop if still marked;
+   the patience is read from the AST of driver/protocol/unhandled.py on every run), the registered consumers and the
    request waiters (peek, can_handle, pop), the packet consumer (unwrap and re-queue when the identifier pair is ours).
    A datagram is abstracted to what matters here: which handler classes accept it (decided on the bytes by the real
    can_handle, C04) and, for a framed packet, whether its identifier pair is this connection's and what it carries. *)
 From Coq Require Import ZArith List Bool.
+Require Import GV.Gen.DispatchFacts.
 Import ListNotations.
 
 Inductive dgram :=
@@ -15,7 +17,7 @@ Definition acceptors (d : dgram) : list nat := match d with Plain a => a | Packe
 Inductive cons := Unh | K (class : nat).              (* K c: a registered consumer or a request waiter of handler class c *)
 Record st := mk { q : list (nat * dgram);             (* (ghost id, datagram), head first *)
                   marked : bool;                      (* AsyncPeekableQueue._marked *)
-                  uph : bool;                         (* the unhandled consumer is in its mark-sleep *)
+                  uph : nat;                          (* sleeps the unhandled consumer has left in its mark phase (0: idle) *)
                   popped : list (nat * dgram * cons);
                   nextid : nat }.
 Inductive label := Put (d : dgram) | Poll (c : cons).
@@ -46,13 +48,19 @@ Definition step (s : st) (l : label) : st :=
       | [] => s
       end
   | Poll Unh =>
-      if uph s then                                   (* woke up after the mark-sleep *)
-        let s' := mk (q s) (marked s) false (popped s) (nextid s) in
-        if marked s then pop_by s' Unh else s'
-      else match q s with
-           | [] => s
-           | _ => mk (q s) true true (popped s) (nextid s)   (* mark, then sleep *)
-           end
+      match uph s with
+      | O => match q s with
+             | [] => s
+             | _ => mk (q s) true unhandled_patience (popped s) (nextid s)   (* mark, then sleep *)
+             end
+      | S n =>                                        (* woke up from a sleep of the mark phase *)
+          if marked s then
+            match n with
+            | O => pop_by (mk (q s) (marked s) 0 (popped s) (nextid s)) Unh   (* patience used up, still marked: discard *)
+            | S _ => mk (q s) (marked s) n (popped s) (nextid s)                (* sleep again *)
+            end
+          else mk (q s) (marked s) 0 (popped s) (nextid s)                      (* somebody took it: back to idle *)
+      end
   end.
 Definition run (s : st) (ls : list label) : st := fold_left step ls s.
-Definition init : st := mk [] false false [] 0.
+Definition init : st := mk [] false 0 [] 0.
